@@ -308,6 +308,9 @@ func (p *parser) postfix(x Expr) Expr {
 				t := p.typeText(")")
 				p.expectOp(")")
 				x = EAssert{x, t}
+			} else if p.isOp("*") {
+				p.p++
+				x = EField{x, "*"}
 			} else {
 				x = EField{x, p.ident()}
 			}
@@ -484,6 +487,7 @@ type CallRule struct {
 	Params  []string
 	Results []string
 	Req     []*Clause
+	Assume  []*Clause
 	Effects []Stmt
 	EffSrc  string
 	Ord     int
@@ -542,7 +546,7 @@ type SpecFile struct {
 }
 
 var clauseKeywords = map[string]bool{
-	"func": true, "requires": true, "ensures": true, "ghost": true, "on": true, "effect": true,
+	"func": true, "requires": true, "assume": true, "ensures": true, "ghost": true, "on": true, "effect": true,
 	"loop": true, "assigns": true, "havoc": true, "may-panic": true, "pure": true, "spec": true,
 	"abstract": true, "guarded": true, "no-return": true, "ensures-by": true, "guarded-cell": true, "freevars": true, "trusted": true, "axiom": true,
 }
@@ -773,6 +777,13 @@ func parseSpecFile(path string) (*SpecFile, error) {
 					return nil, err
 				}
 				cur.Ensures[len(cur.Ensures)-1].Lemma = f[0]
+			case "assume":
+				if rule == nil {
+					return nil, fail("assume outside an on-call rule")
+				}
+				if err := mk(&rule.Assume, r.text, r.line); err != nil {
+					return nil, err
+				}
 			case "effect":
 				if rule == nil {
 					return nil, fail("effect outside an on-call rule")
